@@ -349,6 +349,13 @@ func (c *reusableConn) exchange(ctx context.Context, q *[]byte) (*[]byte, error)
 	_, err := c.c.Write(*q)
 	if err != nil {
 		c.closeWithErr(err)
+		// A reply may have been delivered while we were writing.
+		select {
+		case resp := <-respChan:
+			binary.BigEndian.PutUint16(*resp, orgId)
+			return resp, nil
+		default:
+		}
 		return nil, err
 	}
 
@@ -366,6 +373,13 @@ func (c *reusableConn) exchange(ctx context.Context, q *[]byte) (*[]byte, error)
 		}
 		return nil, c.closeErr
 	case <-ctx.Done():
+		// A reply may have been delivered before ctx was done.
+		select {
+		case resp := <-respChan:
+			binary.BigEndian.PutUint16(*resp, orgId)
+			return resp, nil
+		default:
+		}
 		return nil, context.Cause(ctx)
 	}
 }
